@@ -50,4 +50,34 @@ def writeReducedAnc (a : AncK) (remove : List String) : AncK :=
       inds := kept.map (fun d => cols.map (fun c => (a.inds.getD d []).getD c 0)),
       vals := kept.map (fun d => cols.map (fun c => (a.vals.getD d []).getD c 0)) }
 
+/-- what `reduce(to_hdf5=True)` links the new dataset to on one side: rebuilt when one of the side's
+    dimensions is reduced, the source's own ancillaries otherwise -/
+def newSide (a : AncK) (dims : List String) : AncK :=
+  if dims.any (fun d => a.labels.contains d) then writeReducedAnc a (dims.filter (fun d => a.labels.contains d)) else a
+
+structure FileResult (α : Type) where
+  data : NDArr (List α)          -- the N' × M' matrix of cells (a reduction function is applied to each)
+  pos : AncK
+  spec : AncK
+  posReused : Bool
+  specReused : Bool
+
+/-- `reduce(dims, ufunc, to_hdf5=True)`: reduce the file-order N-D form, rebuild the ancillaries of the
+    sides that lost a dimension, flatten with `reshape_from_n_dims` and link (`link_as_main` refuses a result
+    that is not two-dimensional or does not match the ancillaries) -/
+def reduceToFile (view : NDArr α) (labels : List String) (posK specK : AncK) (dims : List String) :
+    Except PyErr (FileResult α) :=
+  match reduceMem view labels dims with
+  | .error e => .error e
+  | .ok g =>
+    let newPos := newSide posK dims
+    let newSpec := newSide specK dims
+    match reshapeFromNDimsBoth g (transposeM newPos.inds) newSpec.inds with
+    | .error e => .error e
+    | .ok two =>
+      if two.shape.length != 2 || two.shape.getD 0 0 != (transposeM newPos.inds).length ||
+          two.shape.getD 1 0 != ncols newSpec.inds then .error .valueErr
+      else .ok ⟨two, newPos, newSpec, !dims.any (fun d => posK.labels.contains d),
+                !dims.any (fun d => specK.labels.contains d)⟩
+
 end Usid.Reduce
